@@ -16,6 +16,7 @@ PROP_MODULES = {
     "C14": ["contracts.c14", "contracts.c14_bounded", "contracts.c08"],
     "C08": ["contracts.c08"],
     "C16": ["contracts.c16", "contracts.c16_bounded"],
+    "C10": ["contracts.c10"],
     "C18": ["contracts.c18", "contracts.c18_bounded"],
 }
 
